@@ -33,9 +33,9 @@ func zxMergeCore(oracle bool) {
 	b := zxValidSeq("B", l.e, res, base, vrtParam("NB", N), vrtParam("spread", N+1))
 	zxAssumeFinite(l, a)
 	zxAssumeFinite(l, b)
-	var tb, tbr time.Time
+	var tb time.Time
 	if vrtShape("hasTB", 2) == 1 {
-		tb, tbr = zxOffGrid("tb", base, res, -vrtParam("tbspan", N+1), vrtParam("tbspan", N+1)+1)
+		tb, _ = zxOffGrid("tb", base, res, -vrtParam("tbspan", N+1), vrtParam("tbspan", N+1)+1)
 	}
 	vrtFreeze("a", a)
 	vrtFreeze("b", b)
@@ -57,8 +57,8 @@ func zxMergeCore(oracle bool) {
 	all := true
 	for p := 0; p <= 2*N+2; p++ {
 		t := top.Add(-time.Duration(p) * res)
-		if !tbr.IsZero() && !t.After(tbr) {
-			continue // expired periods may be dropped or kept
+		if !tb.IsZero() && !t.After(tb) {
+			continue // periods that ended at or before the (unrounded) bound may be dropped or kept
 		}
 		want := zxMergeAcc(l, zxAccAt(a, w, res, t), zxAccAt(b, w, res, t))
 		got := zxAccAt(r, w, res, t)
